@@ -143,6 +143,10 @@ def gen(r, tier):
         scn["crash"] = {"mode": "all", "torn": 2, "double": 3}
     else:
         scn["crash"] = {"mode": "sample", "n": 10, "torn": 1, "double": 1}
+    if r.chance(0.3):
+        # how far the host's wall clock moves from one incarnation to the next (default: not at all -- restarts
+        # within one second; also backwards, and jumps)
+        scn["wall_steps"] = [r.choice([0.0, 0.3, 1.0, 2.5, 3600.0, -1.0, -3600.0]) for _ in range(r.randint(1, 3))]
     return scn
 
 
@@ -246,6 +250,10 @@ class Run:
         self.fs.crash_plan = [list(p) for p in self.plan]
         self.fs.io_rules = [dict(r) for r in scn.get("io_errors") or []]
         self.secrets = env.SeededSecrets("%s|c13" % run_seed)
+        # the wall clock of the host: stands still unless the scenario moves it between two incarnations (restarts
+        # within the same second, a clock that is set back, a device without a real-time clock)
+        self.clock = self.F.TimeShim()
+        self.wall_steps = list(scn.get("wall_steps") or [0.0])
         self.P = env.make_context(osc, c["alg"], "sha256", self.rid, self.sid, self.idctx,
                                   bytes.fromhex(c.get("salt") or ""), bytes.fromhex(c["secret"]),
                                   seqno=0, window=64, initialized=True)
@@ -305,6 +313,8 @@ class Run:
         osc = self.osc
         c = self.scn["ctx"]
         while True:
+            if self.inc:
+                self.clock.advance(self.wall_steps[(self.inc - 1) % len(self.wall_steps)])
             cls = osc.FilesystemSecurityContext
             obj = cls.__new__(cls)
             self.objs.append(obj)
@@ -760,7 +770,7 @@ class Run:
     def run(self):
         F = self.F
         ops = list(self.scn.get("ops") or []) + EPILOGUE
-        with F.Seams(self.osc, self.fs, self.secrets):
+        with F.Seams(self.osc, self.fs, self.secrets, clock=self.clock):
             try:
                 try:
                     first = self.fs.step + 1
